@@ -64,6 +64,13 @@ class FuncV(Val):
 
 
 @dataclass(frozen=True)
+class LamV(Val):
+    """A lambda expression together with the values of the enclosing frame at its creation (snapshot closure)."""
+    key: int                                    # id of the ast.Lambda node (resolved through Interp.lambdas)
+    captured: Tuple[Tuple[str, Any], ...] = ()
+
+
+@dataclass(frozen=True)
 class BoundV(Val):
     recv: Val
     qual: str               # program function qualname
@@ -180,6 +187,7 @@ class DictE:
     items: Tuple[Tuple[Val, Val], ...] = ()
     exact: bool = True
     born: int = 0
+    default: Any = None       # value of a missing key (collections.Counter -> Const(0)); None = KeyError
 
 
 # ------------------------------------------------------------------ frames
@@ -389,6 +397,10 @@ class State:
                 mk.append((name, tuple(sorted((cs(a), cs(b)) for a, b in v.items() if a in mapping))))
             elif name == 'nth':
                 mk.append((name, tuple(sorted(((cs(a[1]),) + a[2:], cs(b)) for a, b in v.items() if a[1] in mapping and b in mapping))))
+            elif name.startswith('ref:'):
+                mk.append((name, cs(v) if isinstance(v, int) else repr(v)))       # a single heap symbol
+            elif name == 'parsed_root':
+                mk.append((name, cs(v.sym) if isinstance(v, Ref) else repr(v)))
             elif name == 'advbase':
                 mk.append((name, tuple(sorted((a, (b.kind, cs(b.parent) if b.parent else None, cs(b.anchor) if b.anchor else None, b.delta, b.slack))
                                               for a, b in v.items()))))
